@@ -134,12 +134,12 @@ pub fn run(ctx: &Ctx) {
     // at the command line: a sink that fails (/dev/full, closed pipe) must turn into exit status 1 (shared with C12)
     { use super::c12::{Case as C12, Req, FileKind, SenderPos, Sink, wiring_from};
       let mut v = Vec::new();
-      for (i, req) in [Req::KeyEnc, Req::KeyDec(FileKind::Authentic), Req::PassEnc, Req::PassDec(FileKind::Authentic)].into_iter().enumerate() { for sink in [Sink::DevFull, Sink::ClosedPipe] { for len in [1usize, 70_000] { v.push(C12 { req, plain: Plain { len, seed: ctx.seed + i as u64 }, chunks: vec![], pos: SenderPos::First, wirings: vec![wiring_from(0)], sink, sel: ctx.seed, prior_out: None, env_decoy: 0, in_name: 0, typed: false, out_kinds: vec![] }); } } }
+      for (i, req) in [Req::KeyEnc, Req::KeyDec(FileKind::Authentic), Req::PassEnc, Req::PassDec(FileKind::Authentic)].into_iter().enumerate() { for sink in [Sink::DevFull, Sink::ClosedPipe] { for len in [1usize, 70_000] { v.push(C12 { req, plain: Plain { len, seed: ctx.seed + i as u64 }, chunks: vec![], pos: SenderPos::First, wirings: vec![wiring_from(0)], sink, sel: ctx.seed, prior_out: None, env_decoy: 0, in_name: 0, typed: false, out_kinds: vec![], in_kinds: vec![], names: 0 }); } } }
       ctx.sse_vec("cli_sink_failures", "encrypt / decrypt / password encrypt / password decrypt x {/dev/full, closed pipe} x {1 B, 70 kB}", v, super::c12::check);
       // the converse: sinks that accept every byte but are not regular files must give the complete result, like a file does
       let mut v = Vec::new();
-      for (i, req) in [Req::KeyEnc, Req::KeyDec(FileKind::Authentic), Req::PassEnc, Req::PassDec(FileKind::Authentic)].into_iter().enumerate() { for len in [0usize, 1, 70_000, 200_000] { v.push(C12 { req, plain: Plain { len, seed: ctx.seed + 7 + i as u64 }, chunks: vec![], pos: SenderPos::First, wirings: vec![wiring_from(0)], sink: Sink::Healthy, sel: ctx.seed, prior_out: None, env_decoy: 0, in_name: 0, typed: false, out_kinds: vec![1, 2, 3] }); } }
-      ctx.sse_vec("cli_healthy_sinks_that_are_not_files", "encrypt / decrypt / password encrypt / password decrypt x {-o /dev/stdout bound to a pipe, -o <named pipe with a reader>, -o /dev/null} x {0 B, 1 B, 70 kB, 200 kB}: the complete result, same as into a file", v, super::c12::check); }
+      for (i, req) in [Req::KeyEnc, Req::KeyDec(FileKind::Authentic), Req::PassEnc, Req::PassDec(FileKind::Authentic)].into_iter().enumerate() { for len in [0usize, 1, 70_000, 200_000] { v.push(C12 { req, plain: Plain { len, seed: ctx.seed + 7 + i as u64 }, chunks: vec![], pos: SenderPos::First, wirings: vec![wiring_from(0)], sink: Sink::Healthy, sel: ctx.seed, prior_out: None, env_decoy: 0, in_name: 0, typed: false, out_kinds: vec![1, 2, 3], in_kinds: vec![1, 2, 3], names: 0 }); } }
+      ctx.sse_vec("cli_healthy_sinks_that_are_not_files", "encrypt / decrypt / password encrypt / password decrypt x {-o /dev/stdout bound to a pipe, -o <named pipe with a reader>, -o /dev/null; FILE = named pipe fed in pieces, /dev/stdin bound to a pipe, symbolic link} x {0 B, 1 B, 70 kB, 200 kB}: the complete result, same as from / into a file", v, super::c12::check); }
     ctx.pbt("pbt_small", ctx.n(150_000, 1_500_000), || strat(op_strategy().boxed(), false), check);
     ctx.pbt("pbt_64k_chunks", ctx.n(3_000, 60_000), || strat(prop_oneof![Just(Op::KeyEnc), Just(Op::KeyDec)].boxed(), true), check);
     ctx.pbt("pbt_pass_mode", ctx.n(120, 2_500), || strat(prop_oneof![Just(Op::PassEnc), Just(Op::PassDec)].boxed(), false), check);
